@@ -78,7 +78,7 @@ def materialise(plan, opt, rng, work, fmt="json"):
     argv = []
     path_index = {}
     per_model = {}
-    order = [a for a in plan["args"] if a["flag"] == "m"] + [a for a in plan["args"] if a["flag"] == "l"]
+    order = list(plan["args"])        # the samples of a model: its arguments in command-line order, -m and -l alike
     contents = {}
     first = None
     yaml11 = fmt == "yaml" and len(plan["args"]) >= 2 and not any(a.get("share") for a in plan["args"]) and rng.random() < 0.6
@@ -347,7 +347,7 @@ def run_subprocess(plan, opt, rng, fmt):
         if p.returncode == 0:
             # the order inside a pattern is unspecified and not observable from outside: every order of every pattern chunk
             import itertools
-            order = [a for a in plan["args"] if a["flag"] == "m"] + [a for a in plan["args"] if a["flag"] == "l"]
+            order = list(plan["args"])
             by_id = {_sid(s_): s_ for ss in per_model.values() for s_ in ss if isinstance(s_, dict)}
             globs = [a for a in order if a["kind"] == "glob"]
             for flips in itertools.product([False, True], repeat=len(globs)):
